@@ -7,6 +7,7 @@ package main
 import (
 	"fmt"
 	"strings"
+	"unsafe"
 
 	"github.com/gofiber/fiber/v3"
 )
@@ -79,6 +80,49 @@ func missName(ci, p int) string {
 	return "bucket-key-mismatch"
 }
 
+// regPattern is the pattern text a registration hands to the router (what addRoute's duplicate test sees).
+func regPattern(e entry) string {
+	p := patterns[e.pat]
+	if e.kind == kGRP {
+		return "/ab" + p
+	}
+	return p
+}
+
+// fid identifies a handler VALUE (the closure object): two closures made from the same function literal
+// differ. Only used to name a root cause, never for the verdict.
+func fid(h fiber.Handler) unsafe.Pointer { return *(*unsafe.Pointer)(unsafe.Pointer(&h)) }
+
+// overwritten looks for a route object whose handler list no longer holds, at the slots the harness saw a
+// registration fill, that registration's own handlers. It returns the registration that CREATED the route
+// object (its handler slice is the one later registrations were appended to).
+func (ws *wstate) overwritten(tbl []entry) (base int, found bool) {
+	for i, e := range tbl {
+		for m := 0; m < nMeth; m++ {
+			rt := ws.rt[i][m]
+			if rt == nil {
+				continue
+			}
+			n := e.chain()
+			for j := 0; j < n; j++ {
+				want := ws.h[i][e.beh]
+				if j < n-1 {
+					want = ws.pre[i][j]
+				}
+				if at := ws.hi[i][m] + j; at >= len(rt.Handlers) || fid(rt.Handlers[at]) != fid(want) {
+					for b := range tbl {
+						if ws.rt[b][m] == rt && ws.hi[b][m] == 0 {
+							return b, true
+						}
+					}
+					return i, true
+				}
+			}
+		}
+	}
+	return 0, false
+}
+
 func (ws *wstate) classify(app *fiber.App, ci int, tbl []entry, mi, pi int, ref *refResult, o *observed) (sig, what string) {
 	if o.panicv != "" {
 		msg := o.panicv
@@ -89,6 +133,13 @@ func (ws *wstate) classify(app *fiber.App, ci int, tbl []entry, mi, pi int, ref 
 	}
 	if ws.overflow {
 		return "runaway-chain", fmt.Sprintf("more than %d handler executions for one request", maxTrace)
+	}
+	if b, yes := ws.overwritten(tbl); yes {
+		return fmt.Sprintf("route-handlers-overwritten-through-shared-array created-by=%s handlers-in-call=%d", kindNames[tbl[b].kind], tbl[b].chain()),
+			"a route object's handler list no longer holds the handlers that were registered into it: the per-method route objects of one multi-method registration share one handler array, and the duplicate-path merge of a later registration for ONE method appended in place, overwriting the slot another method's route had been given (a handler registered for another method runs, the registered one is lost)"
+	}
+	if ws.broken {
+		return "handler-chain-broken", "the handlers passed in one registration call did not run as one complete in-order chain"
 	}
 	// first divergence
 	k := 0
@@ -131,6 +182,17 @@ func (ws *wstate) classify(app *fiber.App, ci int, tbl []entry, mi, pi int, ref 
 					}
 					any = true
 					allMiss = allMiss && bucketMiss(ci, e, om, p)
+				}
+			}
+			for i, e := range tbl {
+				if e.kind == kUSE || !entryHandles(ci, e, om, p) || ws.rt[i][om] == nil {
+					continue
+				}
+				for j := range tbl {
+					if j != i && ws.rt[j][om] == ws.rt[i][om] && regPattern(tbl[j]) != regPattern(e) {
+						return "merged-registrations-of-different-patterns effect=endpoint-missing-from-allow",
+							"end of chain: a method whose endpoint matches the path is not offered in Allow: the endpoint's registration was merged into the route object of a registration with a different pattern text (e.g. differing only by an escape character) and is only reachable through that route's matcher"
+					}
 				}
 			}
 			if any && allMiss {
@@ -202,7 +264,19 @@ func (ws *wstate) classify(app *fiber.App, ci int, tbl []entry, mi, pi int, ref 
 		newL := bucketLabel(app, ci, int(ref.stM[lastOv+1]), int(ref.stP[lastOv+1]))
 		return fmt.Sprintf("override-path-cursor-reuse effect=%s buckets=%s->%s", effect, oldL, newL), what
 	}
-	_ = subject
+	// no override involved: mechanisms of the registration bookkeeping itself
+	if subject >= 0 && ws.rt[subject][mK] != nil {
+		for j := range tbl {
+			if j != subject && ws.rt[j][mK] == ws.rt[subject][mK] && regPattern(tbl[j]) != regPattern(tbl[subject]) {
+				return fmt.Sprintf("no-override merged-registrations-of-different-patterns effect=%s", effect),
+					"two consecutive registrations whose pattern texts differ (e.g. only by an escape character) were merged into ONE route object, so the handler of one runs (or is skipped) under the matcher of the other"
+			}
+		}
+	}
+	if ob >= 0 && effect == "runs-nonmatching-entry" && ws.rt[ob][mK] == nil {
+		return "no-override runs-handler-registered-for-other-method",
+			"a handler ran under a method for which its registration created no route"
+	}
 	return fmt.Sprintf("no-override dispatch-differs-from-linear-scan effect=%s", effect),
 		"without any override the handlers that ran are not the registration-order sequence of individually matching routes"
 }
